@@ -152,7 +152,7 @@ func Run(c *core.Ctx) {
 	}
 	b.Feed(c, o, ms)
 	b.NoteInstrumentation(c, "instrumentation_family_b")
-	c.Note("family_b_corpus", map[string]any{"family": corpus.Family, "designs": len(corpus.Designs), "dir": corpus.Dir})
+	c.Note("family_b_corpus", map[string]any{"family": corpus.Family, "designs": len(corpus.Designs)})
 	var sigs []string
 	for _, m := range ms {
 		for _, f := range m.Findings {
